@@ -58,4 +58,6 @@ def run(ctx, rep):
     # only id without an entry is the up-cast slot of a virtual class (rules shared with C05 I3 / I4)
     rep.run(RID.rule_sites, ctx, rep, "H14", min_sites=11)
     rep.run(RID.rule_offsets, ctx, rep, "H14")
+    # H15: a scalar result reaches MATLAB as the number the C++ entity returned: no lossy conversion before the store (= C18 K3)
+    rep.run(RH.rule_scalar_write, ctx, rep, "H15")
     rep.run(RF.rule_locals_defined, ctx, rep, "U1", packages=("gtwrap/matlab_wrapper",), min_functions=3)
